@@ -110,11 +110,48 @@ def fam_tnest(item):
         yield scn
 
 
+def fam_flatfv(item):
+    # one never-ending forever job, every fault subset, every window
+    shape = item['shape']
+    for j in atomic_names(shape):
+        base0 = gen.apply_mods(shape, [(j, 'forever', True),
+                                       (j, 'dur', 'never')])
+        for base in forced(base0, all_windows):
+            menu = gen.open_menu(base, {'dur': [0, 2]}, {}, {'k': ['nest']})
+            for scn, _ in gen.variants(base, menu, item['k']):
+                yield scn
+
+
+def fam_flat5fv(item):
+    # five jobs, one of them a never-ending forever job, window 2 or 3
+    shape = item['shape']
+    for j in atomic_names(shape):
+        for w in (2, 3):
+            base = gen.apply_mods(shape, [(j, 'forever', True),
+                                          (j, 'dur', 'never'),
+                                          ('top', 'window', w)])
+            menu = gen.open_menu(base, {'dur': [2]}, {}, {})
+            for scn, _ in gen.variants(base, menu, 1):
+                yield scn
+
+
+def fam_flat6fv(item):
+    # six jobs, <=2 edges, one never-ending forever job, window 2
+    shape = item['shape']
+    for j in atomic_names(shape):
+        base = gen.apply_mods(shape, [(j, 'forever', True),
+                                      (j, 'dur', 'never'),
+                                      ('top', 'window', 2)])
+        menu = gen.open_menu(base, {'dur': [2]}, {}, {})
+        for scn, _ in gen.variants(base, menu, 1):
+            yield scn
+
+
 def fam_flat5(item):
     yield from forced(item['shape'], lambda n: [1, 2, 3])
 
 
-FAMS = {'flat5': fam_flat5, 'flat': fam_flat, 'flat4': fam_flat4, 'nest': fam_nest,
+FAMS = {'flat6fv': fam_flat6fv, 'flat5fv': fam_flat5fv, 'flatfv': fam_flatfv, 'flat5': fam_flat5, 'flat': fam_flat, 'flat4': fam_flat4, 'nest': fam_nest,
         'deep': fam_deep, 'tflat': fam_tflat, 'tnest': fam_tnest}
 
 
@@ -137,6 +174,13 @@ def items(tier, seed):
         for shape in gen.flat_shapes(n):
             yield dict(fam='flat', shape=shape, k=2 if thorough else 1,
                        bound=3 if thorough else 2)
+    for n in (2, 3):
+        for shape in gen.flat_shapes(n):
+            yield dict(fam='flatfv', shape=shape, k=1 if thorough else 0,
+                       bound=2)
+    if thorough:
+        for shape in gen.flat_shapes(4):
+            yield dict(fam='flatfv', shape=shape, k=0, bound=1)
     # B: flat 4 (quick: one representative per isomorphism class)
     if thorough:
         shapes4 = list(gen.flat_shapes(4))
@@ -149,6 +193,9 @@ def items(tier, seed):
     # B': five jobs, few edges, every fault subset, windows 1..3
     for shape in gen.sparse_shapes(5, 3 if thorough else 2):
         yield dict(fam='flat5', shape=shape, k=0, bound=2)
+        yield dict(fam='flat5fv', shape=shape, k=1, bound=1)
+    for shape in gen.sparse_shapes(6, 2):
+        yield dict(fam='flat6fv', shape=shape, k=1, bound=2 if thorough else 1)
     # C: nested
     for shape in gen.nest_shapes(3, 2):
         yield dict(fam='nest', shape=shape, k=1 if thorough else 0,
